@@ -482,3 +482,18 @@ C(f"{F}:Parser.make_arguments", params={"self": "obj:Parser", "pos_only": "opt[o
            "implies(not is_none(after_star), result.vararg is after_star[0] and result.kwarg is after_star[2] and len(result.kwonlyargs) == len(after_star[1]))",
            "implies(is_none(after_star), is_none(result.vararg) and is_none(result.kwarg) and len(result.kwonlyargs) == 0)"],
   raises=[], pure=True, properties=["C04", "C01"])
+
+# comparison chains `a < b <= c`: the operators and the right operands of the (operator, operand) pairs, in order, none dropped (C01)
+PAIRS = "objseq[(obj:AnyNode, obj:PosNode)]"
+C(f"{F}:Parser.get_comparison_ops", params={"self": "obj:Parser", "pairs": PAIRS},
+  ensures=["len(result) == len(pairs)", "all(result[j] is pairs[j][0] for j in range(len(pairs)))"], raises=[], pure=True, properties=["C01", "C04"])
+C(f"{F}:Parser.get_comparators", params={"self": "obj:Parser", "pairs": PAIRS},
+  ensures=["len(result) == len(pairs)", "all(result[j] is pairs[j][1] for j in range(len(pairs)))"], raises=[], pure=True, properties=["C01", "C04"])
+C(f"{F}:Parser.set_decorators", params={"self": "obj:Parser", "target": "obj:PosNode", "decorators": "objseq[obj:PosNode]"},
+  ensures=["result is target", "len(target.decorator_list) == len(decorators)", "all(target.decorator_list[j] is decorators[j] for j in range(len(decorators)))"],
+  raises=[], modifies=["target.decorator_list"], properties=["C01", "C04"])
+
+# f-string conversions `!s` `!r` `!a`: the node's conversion code is the character's code; anything else is a located error (C10, C11)
+C(f"{F}:Parser.check_fstring_conversion", params={"self": "obj:Parser", "name": "Tok"}, returns="int", requires=TKW + ["tok_wf(name)"],
+  ensures=["(name.string == 's' and result == 115) or (name.string == 'r' and result == 114) or (name.string == 'a' and result == 97)"],
+  raises=["SyntaxError"], raises_ensures=[WF], modifies=ERRMOD, properties=["C10", "C11", "C02"])
